@@ -271,7 +271,7 @@ class ProvRecord(object):
 
         :param type_identifier: PROV namespace identifier to add.
         """
-        self._attributes[PROV_TYPE].add(type_identifier)
+        self._attributes[PROV_TYPE].add(self._auto_literal_conversion(type_identifier))
 
     def get_attribute(self, attr_name) -> set:
         """
